@@ -298,6 +298,25 @@ def run_grid() -> list[dict]:
 
     recs = []
     cases = all_cases()
+    # E: tables bound through *distinct* Engine objects of the same database (separate create_engine calls, URL strings)
+    import sqlalchemy as sqa
+
+    for d in DIALECTS:
+        e1 = dialects.engine(d)
+        rec = dict(case="E.join_two_engines_same_url", dialect=d)
+        try:
+            e2 = sqa.create_engine(e1.url)
+            t1 = pdt.Table(dialects.sqa_table("grid", COLS), pdt.SqlAlchemy(e1))
+            t2 = pdt.Table(dialects.sqa_table("grid2", COLS), pdt.SqlAlchemy(e2))
+            q1 = str(t1 >> pdt.join(t2, t1.i == t2.i, how="inner") >> pdt.select(t1.i, t2.j) >> pdt.build_query())
+            q2 = str(t1 >> pdt.left_join(t2 >> pdt.filter(t2.j > 0), t1.i == t2.i) >> pdt.mutate(z=t1.f + t2.f) >> pdt.build_query())
+            rec["outcome"] = "accepted_ok" if q1.strip().upper().startswith("SELECT") and q2.strip().upper().startswith("SELECT") else "not_one_select"
+        except Exception as e:  # noqa: BLE001
+            rec["outcome"] = "allowed" if type(e).__name__ in ALLOWED_BUILD else ("rejected" if type(e).__name__ in ("ValueError", "TypeError") else "internal")
+            rec["stage"] = "build_query"
+            rec["exc"] = type(e).__name__
+            rec["msg"] = str(e)[:200]
+        recs.append(rec)
     for d in DIALECTS:
         eng = dialects.engine(d)
         for name, mk in cases:
